@@ -34,6 +34,9 @@ type c10ver struct {
 	Key  int
 	Snap []byte // packed stored answer (without OPT) at store time
 	At   time.Duration
+	// Reloaded: the entry went through dump -> load_dump, which keeps its times
+	// to the second only
+	Reloaded bool
 }
 
 type c10cfg struct {
@@ -44,6 +47,8 @@ type c10cfg struct {
 	lazy    int
 	race    bool
 	shortTTL bool
+	pDump    int // percent: a dump is taken (and thrown away) while / after a round
+	pRestart int // percent: after a round the cache is dumped and reloaded into a new instance
 }
 
 func c10Setup(rc *RunCtx) simrt.Config {
@@ -56,6 +61,10 @@ func c10Setup(rc *RunCtx) simrt.Config {
 	c.useTTL = r.Choose(2) == 0
 	c.lazy = []int{0, 0, 3600}[r.Choose(3)]
 	c.shortTTL = r.Choose(2) == 0
+	c.pDump = []int{0, 30, 60}[r.Choose(3)]
+	c.pRestart = []int{0, 0, 30}[r.Choose(3)]
+	rc.Cfg["p_dump"] = c.pDump
+	rc.Cfg["p_restart"] = c.pRestart
 	rc.Cfg["short_ttl"] = c.shortTTL
 	rc.Cfg["strategy"] = sname
 	rc.Cfg["kind"] = "cache plugin + mutators"
@@ -186,7 +195,21 @@ func c10Main(rc *RunCtx) {
 	}
 	for round := 0; round < c.rounds && rc.Viol == nil; round++ {
 		n := 1 + simrt.Choose(c.maxConc)
-		done := make(chan struct{}, n)
+		done := make(chan struct{}, n+1)
+		dumping := simrt.Choose(100) < c.pDump
+		if dumping {
+			// a dump is taken while the instance keeps serving
+			simrt.GoNamed(fmt.Sprintf("dump%d", round), func() {
+				defer simrt.Send(0, done, struct{}{})
+				if simrt.Choose(2) == 0 {
+					simrt.Yield(0)
+				}
+				if _, code := apiDump(cp); code != 200 {
+					rc.Fail("dump_failed", "GET /dump returned %d", code)
+				}
+				simrt.Fault("dump_while_serving")
+			})
+		}
 		for i := 0; i < n; i++ {
 			key := simrt.Choose(c.keys)
 			id := uint16(simrt.Choose(65536))
@@ -263,8 +286,28 @@ func c10Main(rc *RunCtx) {
 				simrt.Probe("c10.hit_verified")
 			})
 		}
+		if dumping {
+			n++
+		}
 		for i := 0; i < n; i++ {
 			simrt.Recv(0, done)
+		}
+		if rc.Viol == nil && simrt.Choose(100) < c.pRestart {
+			// restart: dump, load the dump into a new instance, go on with that one
+			b, code := apiDump(cp)
+			if code != 200 {
+				rc.Fail("dump_failed", "GET /dump returned %d", code)
+				break
+			}
+			cp2 := cacheplug.NewCache(&cacheplug.Args{Size: 4096, LazyCacheTTL: c.lazy}, cacheplug.Opts{})
+			if code := apiLoad(cp2, b); code != 200 {
+				rc.Fail("load_dump_failed", "POST /load_dump of the dump just taken returned %d", code)
+				break
+			}
+			cp.Close()
+			cp = cp2
+			raceSafeMarkReloaded(vers)
+			simrt.Fault("restart_via_dump")
 		}
 		if simrt.Choose(2) == 0 {
 			simrt.Sleep(0, time.Duration(1+simrt.Choose(5))*time.Second)
@@ -282,6 +325,23 @@ func raceSafeLoad(m *[4096]*c10ver, k uint32) *c10ver {
 		return v
 	}
 	return nil
+}
+
+//go:norace
+func raceSafeMarkReloaded(m *[4096]*c10ver) {
+	for _, v := range m {
+		if v != nil {
+			v.Reloaded = true
+		}
+	}
+}
+
+func c10KeyOf(q *dns.Msg) int {
+	k := -1
+	if len(q.Question) == 1 {
+		fmt.Sscanf(q.Question[0].Name, "k%d.test.", &k)
+	}
+	return k
 }
 
 func c10Post(rc *RunCtx, res simrt.Result) {
